@@ -202,6 +202,18 @@ PARTS = {
                                  {("rejected-add" if e["op"].get("ret", "").startswith("err") else "") for e in events}
                                  | {("replaced" if e["op"]["o"] in ("response_in",) and i > 0 and any(r[0] in {x[0] for x in events[i - 1]["obs"]["table"]} and r[1] not in {x[1] for x in events[i - 1]["obs"]["table"]} for r in e["obs"]["table"]) else "") for i, e in enumerate(events)}
                                  | {("removed" if i > 0 and len(e["obs"]["table"]) < len(events[i - 1]["obs"]["table"]) and e["op"]["o"] != "reset" else "") for i, e in enumerate(events)}]),
+    # lookups of the running service (callback, requests emitted, result) - the service-level clauses of C09 and C10
+    "svc_lookup": _svc_common({"C09.CallbackTwice": "C09", "C09.NoCallback": "C09", "C09.SamePeerTwice": "C09", "C09.InFlight": "C09",
+                               "C10.Duplicate": "C10", "C10.TooMany": "C10", "C10.Order": "C10", "C10.PredicateMismatch": "C10",
+                               "C10.NotAnswered": "C10", "C10.Incomplete": "C10"},
+        spec="MC_Lookup.tla", mc={"quick": [], "thorough": []},
+        sim={"quick": [dict(cfg="MC_Lookup_sim_ip4.cfg", num=60, depth=40), dict(cfg="MC_Lookup_sim_dual.cfg", num=40, depth=40)],
+             "thorough": [dict(cfg="MC_Lookup_sim_ip4.cfg", num=800, depth=40), dict(cfg="MC_Lookup_sim_dual.cfg", num=500, depth=40)]},
+        required=lambda events: [n for n in ["callback", "nonempty-result", "honest_reply", "late-timeout"] if n not in
+                                 {("callback" if e["obs"]["done"] else "") for e in events}
+                                 | {("nonempty-result" if any(d.get("res") for d in e["obs"]["done"]) else "") for e in events}
+                                 | {e["op"]["o"] for e in events if "unresolved" not in e["op"]}
+                                 | {("late-timeout" if e["op"]["o"] == "age" and e["obs"]["done"] else "") for e in events}]),
     "svc_vote": _svc_common({"C17.NotByPong": "C17", "C17.BelowMinimum": "C17", "C17.NoClearMajority": "C17", "C17.SeqNotIncreased": "C17",
                              "C17.InvalidSignature": "C17", "C17.NotAnnounced": "C17"},
         spec="MC_IpVote.tla", mc={"quick": ["MC_IpVote.cfg"], "thorough": ["MC_IpVote.cfg", "MC_IpVote_5.cfg"]},
@@ -311,8 +323,8 @@ PROPS = {
     "C02": dict(parts=[dict(name="handler_mut"), dict(name="handler", mc={"quick": [], "thorough": ["MC_Handler_atkq.cfg"]})]),
     "C03": dict(parts=[dict(name="handler", mc={"quick": ["MC_Handler_atkq.cfg"], "thorough": ["MC_Handler_atkq.cfg", "MC_Handler_tiny.cfg"]})]),
     "C04": dict(parts=[dict(name="handler")]),
-    "C09": dict(parts=[dict(name="query")]),
-    "C10": dict(parts=[dict(name="query")]),
+    "C09": dict(parts=[dict(name="query"), dict(name="svc_lookup")]),
+    "C10": dict(parts=[dict(name="query"), dict(name="svc_lookup")]),
     "C13": dict(parts=[dict(name="handler")]),
     "C19": dict(parts=[dict(name="handler")]),
     "C11": dict(parts=[dict(name="svc_nodes")]),
